@@ -130,7 +130,11 @@ func (c *wsConn) nextMessage() {
 		close(c.incoming)
 		return
 	}
-	c.incoming <- r
+	select {
+	case c.incoming <- r:
+	case <-c.exiting:
+		// connection handler has returned, nobody is going to receive this
+	}
 }
 
 // nextWriter waits for writeLk and invokes the cb callback with WS message
